@@ -521,6 +521,7 @@ def discharge(prog, iv, site):
                 if c_[0] == "call" and (c_[1].endswith("::split_at") or c_[1].endswith("::split_at_mut")) and len(c_[2]) == 2:
                     n_ = strip(c_[2][1])
             else:
+                from cache_rules import slice_of
                 so_ = slice_of(x_)
                 if so_ is not None and so_[1] == "to":
                     n_ = strip(so_[3])
